@@ -16,7 +16,7 @@ import (
 func init() {
 	register(&Property{
 		ID:          "C11",
-		Explanation: "Decides agreement of the finite wire tables of the peer protocol between writer, reader and a BEP 3/5/6/9/10/11 reference embedded in the checker: (R11.1) message ids - the constant returned by ID() of every type implementing peerprotocol.Message, the MessageID constants, and the type delivered by the reader under each `id == k` fact agree with each other and with the reference; every sendable type has a reader arm; (R11.2) field layout - (offset,width,field) triples of the PutUintN calls of every fixed-layout Read method, the returned count and io.EOF, big-endian order, equal the encoding/binary layout of the struct the reader fills under that id and the reference layout; the reader consumes from the stream exactly what the reference prescribes per id (nothing / one binary.Read / length-1 bytes / header + length-9 bytes) and delivers the value it read; (R11.3) framing - messageWriter reserves 5 bytes in an empty buffer, stores uint32(1+m) big-endian at [0:4] with m the count returned by the WriteTo/ReadFrom that serialised the same message, stores msg.ID() at [4], writes the same buffer; keep-alive is four zero bytes; the reader strips exactly one id byte from the frame length; (R11.4) handshake - struct order/widths 20/8/20/20 of writeHandshake equal the io.ReadFull sequence of readHandshake1+2 and the reference, pstr is the reference constant and is verified by the reader; (R11.5) extension protocol - advertised m dictionary vs UnmarshalBinary dispatch vs reference keys, bencode keys, origin of every outgoing ExtendedMessageID (peer's handshake map under the matching key, or 0 for the handshake), metadata payloads with data are passed by value, WriteTo's returned count covers every byte it writes; (R11.6) countUploadBytes is called only for Piece messages with the n of the framed conn.Write and subtracts 4+1+8. NOT decided: byte-exact round trip for all field values and all fragmentations of the stream (bufio, encoding/binary, bytes.Buffer and bencode are trusted).",
+		Explanation: "Decides agreement of the finite wire tables of the peer protocol between writer, reader and a BEP 3/5/6/9/10/11 reference embedded in the checker: (R11.1) message ids - the constant returned by ID() of every type implementing peerprotocol.Message, the MessageID constants, and the type delivered by the reader under each `id == k` fact agree with each other and with the reference; every sendable type has a reader arm; (R11.2) field layout - (offset,width,field) triples of the PutUintN calls of every fixed-layout Read method, the returned count and io.EOF, big-endian order, equal the encoding/binary layout of the struct the reader fills under that id and the reference layout; the reader consumes from the stream exactly what the reference prescribes per id (nothing / one binary.Read / length-1 bytes / header + length-9 bytes; arms moved into same-package helpers are followed: stream reads in the helper count for the id of the call site, a by-value length parameter stands for the argument, returned messages for the delivered value) and delivers the value it read; (R11.3) framing - every Write on the peer connection in package peerwriter, in whatever function it is, is either the 4-zero-byte keep-alive or the framed write; the function that makes the framed write reserves 5 bytes in an empty buffer (a buffer parameter is followed to its call sites), stores uint32(1+m) big-endian at [0:4] with m the count returned by the WriteTo/ReadFrom that serialised the same message, stores msg.ID() at [4], writes the same buffer; keep-alive is four zero bytes; the reader strips exactly one id byte from the frame length; (R11.4) handshake - struct order/widths 20/8/20/20 of writeHandshake equal the io.ReadFull sequence of readHandshake1+2 and the reference, pstr is the reference constant and is verified by the reader; (R11.5) extension protocol - advertised m dictionary vs UnmarshalBinary dispatch vs reference keys, bencode keys, origin of every outgoing ExtendedMessageID (peer's handshake map under the matching key, or 0 for the handshake), metadata payloads with data are passed by value, WriteTo's returned count covers every byte it writes; (R11.6) countUploadBytes is called, wherever the call is, only with the n of the framed conn.Write of the same function under msg.(Piece) of the message written, and subtracts 4+1+8. NOT decided: byte-exact round trip for all field values and all fragmentations of the stream (bufio, encoding/binary, bytes.Buffer and bencode are trusted).",
 		RuleText:    commonRuleText,
 		Assumptions: append([]string{"encoding/binary.Read/Write lay out exported fixed-size struct fields in declaration order without padding; bytes.Buffer.ReadFrom(r) appends r.Read output until io.EOF and returns the byte count; the reference id/layout tables embedded in c11.go transcribe BEP 3, 5, 6, 9, 10, 11 correctly"}, commonAssumptions...),
 		Run:         runC11,
@@ -378,13 +378,15 @@ type c11Arm struct {
 	ID      int64
 	IDs     []int64
 	Src     ssa.Value
-	At      ssa.Instruction
-	T       *types.Named // delivered dynamic type
-	Payload *ssa.Alloc   // ExtensionMessage alloc whose Payload is delivered
+	At      ssa.Instruction // point of Run at which the id facts are evaluated
+	T       *types.Named    // delivered dynamic type
+	Payload *ssa.Alloc      // ExtensionMessage alloc whose Payload is delivered
+	PayAt   ssa.Instruction // the load of Payload (in the function that owns the alloc)
 }
 
 type c11Consumer struct {
 	Call   *ssa.Call
+	Ctx    []*ssa.Call // call chain from Run down to the function containing Call (empty: in Run)
 	IDs    []int64
 	Kind   string     // binary.Read | io.ReadFull | readPiece | io.CopyN | other
 	Target *ssa.Alloc // binary.Read destination
@@ -505,29 +507,40 @@ func c11AnalyseReader(c *kit.Ctx, env *c11Env) *c11Reader {
 	deliver := func(v ssa.Value) {
 		rd.sends++
 		for _, s := range boolSources(v) {
-			arm := c11Arm{Src: s.V, At: s.At, ID: -1}
-			switch x := s.V.(type) {
-			case *ssa.MakeInterface:
-				arm.T = derefNamed(x.X.Type())
-				if _, isPtr := x.X.Type().Underlying().(*types.Pointer); isPtr {
-					arm.T = nil
+			at := s.At
+			if x, ok := s.V.(ssa.Instruction); ok && x.Parent() == run {
+				switch s.V.(type) {
+				case *ssa.MakeInterface, *ssa.UnOp:
+					at = x
 				}
-				arm.At = x
-			case *ssa.UnOp:
-				if fa, ok := x.X.(*ssa.FieldAddr); ok && x.Op == token.MUL {
-					if a, ok := fa.X.(*ssa.Alloc); ok && kit.Canon(x).Field != nil && kit.Canon(x).Field.Name() == "Payload" {
-						arm.Payload = a
+			}
+			var ids []int64
+			if at != nil {
+				ids = rd.facts.At(at)
+			}
+			// an arm that was moved into a helper returns its message: look
+			// through the helper's returns (error paths return zero values)
+			for _, o := range c11ValueOrigins(s.V, 2) {
+				arm := c11Arm{Src: o, At: at, ID: -1, IDs: ids}
+				switch x := o.(type) {
+				case *ssa.MakeInterface:
+					arm.T = derefNamed(x.X.Type())
+					if _, isPtr := x.X.Type().Underlying().(*types.Pointer); isPtr {
+						arm.T = nil
+					}
+				case *ssa.UnOp:
+					if fa, ok := x.X.(*ssa.FieldAddr); ok && x.Op == token.MUL {
+						if a, ok := fa.X.(*ssa.Alloc); ok && kit.Canon(x).Field != nil && kit.Canon(x).Field.Name() == "Payload" {
+							arm.Payload = a
+							arm.PayAt = x
+						}
 					}
 				}
-				arm.At = x
-			}
-			if arm.At != nil {
-				arm.IDs = rd.facts.At(arm.At)
 				if len(arm.IDs) == 1 {
 					arm.ID = arm.IDs[0]
 				}
+				rd.arms = append(rd.arms, arm)
 			}
-			rd.arms = append(rd.arms, arm)
 		}
 	}
 	kit.Instrs(run, func(ins ssa.Instruction) {
@@ -545,51 +558,112 @@ func c11AnalyseReader(c *kit.Ctx, env *c11Env) *c11Reader {
 		}
 	})
 
-	// stream consumers
-	kit.Instrs(run, func(ins ssa.Instruction) {
-		call, ok := ins.(*ssa.Call)
-		if !ok {
-			return
-		}
-		cc := &call.Call
-		obj := kit.CalleeObj(cc)
-		usesR := false
-		for _, a := range cc.Args {
-			if isR(a) {
+	// stream consumers: in Run and, as an inlined view, in the same-package
+	// helpers an arm calls (readPiece is a primitive: its size is its argument)
+	var scan func(fn *ssa.Function, ctx []*ssa.Call, depth int)
+	scan = func(fn *ssa.Function, ctx []*ssa.Call, depth int) {
+		kit.Instrs(fn, func(ins ssa.Instruction) {
+			call, ok := ins.(*ssa.Call)
+			if !ok {
+				return
+			}
+			cc := &call.Call
+			obj := kit.CalleeObj(cc)
+			usesR := false
+			for _, a := range cc.Args {
+				if isR(a) {
+					usesR = true
+				}
+			}
+			if cc.IsInvoke() && isR(cc.Value) {
 				usesR = true
 			}
-		}
-		if cc.IsInvoke() && isR(cc.Value) {
-			usesR = true
-		}
-		if !usesR && obj != readPiece {
-			return
-		}
-		co := c11Consumer{Call: call, Kind: "other", IDs: rd.facts.At(call)}
-		switch {
-		case obj == binRead && len(cc.Args) == 3:
-			co.Kind = "binary.Read"
-			co.Target = c11BoxedAlloc(cc.Args[2])
-			co.BigEnd = c11IsBigEndian(cc.Args[1])
-		case obj == readFull && len(cc.Args) == 2:
-			co.Kind = "io.ReadFull"
-			co.Buf = cc.Args[1]
-		case obj == readPiece:
-			co.Kind = "readPiece"
-			co.Len = argOf(cc, 1)
-		case obj == copyN && len(cc.Args) == 3:
-			co.Kind = "io.CopyN"
-			co.Len = cc.Args[2]
-		}
-		rd.consumers = append(rd.consumers, co)
-	})
+			if !usesR && obj != readPiece {
+				if g := cc.StaticCallee(); g != nil && g.Blocks != nil && depth > 0 && g != run && pkgOf(g) == pkgOf(run) {
+					busy := false
+					for _, x := range ctx {
+						if x.Call.StaticCallee() == g {
+							busy = true
+						}
+					}
+					if !busy {
+						scan(g, append(append([]*ssa.Call{}, ctx...), call), depth-1)
+					}
+				}
+				return
+			}
+			top := ssa.Instruction(call)
+			if len(ctx) > 0 {
+				top = ctx[0]
+			}
+			co := c11Consumer{Call: call, Ctx: ctx, Kind: "other", IDs: rd.facts.At(top)}
+			switch {
+			case obj == binRead && len(cc.Args) == 3:
+				co.Kind = "binary.Read"
+				co.Target = c11BoxedAlloc(cc.Args[2])
+				co.BigEnd = c11IsBigEndian(cc.Args[1])
+			case obj == readFull && len(cc.Args) == 2:
+				co.Kind = "io.ReadFull"
+				co.Buf = cc.Args[1]
+			case obj == readPiece:
+				co.Kind = "readPiece"
+				co.Len = argOf(cc, 1)
+			case obj == copyN && len(cc.Args) == 3:
+				co.Kind = "io.CopyN"
+				co.Len = cc.Args[2]
+			}
+			rd.consumers = append(rd.consumers, co)
+		})
+	}
+	scan(run, nil, 2)
 	return rd
+}
+
+// c11ValueOrigins looks through the results of module functions with a body:
+// a value that is result i of a static call stands for the values returned
+// at index i by the callee (phis expanded, zero-value constants of error
+// paths dropped). Any other value stands for itself.
+func c11ValueOrigins(v ssa.Value, depth int) []ssa.Value {
+	var call *ssa.Call
+	idx := 0
+	switch x := v.(type) {
+	case *ssa.Extract:
+		call, _ = x.Tuple.(*ssa.Call)
+		idx = x.Index
+	case *ssa.Call:
+		if x.Call.Signature().Results().Len() == 1 {
+			call = x
+		}
+	}
+	if call == nil || depth <= 0 {
+		return []ssa.Value{v}
+	}
+	g := call.Call.StaticCallee()
+	if g == nil || g.Blocks == nil || g.Pkg == nil || !kit.InModule(g.Pkg.Pkg.Path()) {
+		return []ssa.Value{v}
+	}
+	var out []ssa.Value
+	for _, r := range returnsOf(g) {
+		if r.Block() == g.Recover || idx >= len(r.Results) {
+			continue
+		}
+		for _, s := range boolSources(r.Results[idx]) {
+			if k, ok := s.V.(*ssa.Const); ok && (k.Value == nil || k.IsNil()) {
+				continue // zero value returned together with an error
+			}
+			out = append(out, c11ValueOrigins(s.V, depth-1)...)
+		}
+	}
+	if len(out) == 0 {
+		return []ssa.Value{v}
+	}
+	return out
 }
 
 // lenOff evaluates v as (frame length - off): conversions, `x - const`, and
 // loads of the length variable after the decrement stores that must have
 // executed since the frame length was read.
-func (rd *c11Reader) lenOff(v ssa.Value) (int64, bool) {
+func (rd *c11Reader) lenOff(v ssa.Value, ctx []*ssa.Call) (int64, bool) {
 	var off int64
 	for {
 		v = c11StripConv(v)
@@ -597,6 +671,21 @@ func (rd *c11Reader) lenOff(v ssa.Value) (int64, bool) {
 			if cv, ok := c11ConstInt(b.Y); ok {
 				off += cv
 				v = b.X
+				continue
+			}
+		}
+		// a by-value parameter of a helper is the argument at the call site
+		if p, ok := v.(*ssa.Parameter); ok && len(ctx) > 0 {
+			site := ctx[len(ctx)-1]
+			idx := -1
+			for i, q := range p.Parent().Params {
+				if q == p {
+					idx = i
+				}
+			}
+			if site.Call.StaticCallee() == p.Parent() && idx >= 0 && idx < len(site.Call.Args) {
+				v = site.Call.Args[idx]
+				ctx = ctx[:len(ctx)-1]
 				continue
 			}
 		}
@@ -801,7 +890,7 @@ func c11MessageIDs(c *kit.Ctx, k *keyer, env *c11Env) {
 		switch {
 		case ref.Deliver == "payload":
 			want = "Payload of a peerprotocol.ExtensionMessage filled by UnmarshalBinary"
-			if a.Payload != nil && derefNamed(a.Payload.Type()) == c11Named(c, c11PP+".ExtensionMessage") && c11UnmarshalledBefore(c, a.Payload, a.At) {
+			if a.Payload != nil && derefNamed(a.Payload.Type()) == c11Named(c, c11PP+".ExtensionMessage") && c11UnmarshalledBefore(c, a.Payload, a.PayAt) {
 				got = want
 			} else {
 				got = what
@@ -1111,7 +1200,7 @@ func c11Layouts(c *kit.Ctx, k *keyer, env *c11Env) {
 		case co.Call == rd.lenRead || co.Call == rd.idRead:
 			// frame header, R11.3
 		case co.Kind == "io.CopyN":
-			off, ok := rd.lenOff(co.Len)
+			off, ok := rd.lenOff(co.Len, co.Ctx)
 			c.Check(ok && off == 1, "R11.2", key, pos, "unknown ids are skipped by discarding frame length - 1 bytes",
 				fmt.Sprintf("unknown ids are skipped by discarding frame length - %d bytes (must be length - 1: the id byte is already consumed); the stream desynchronises", off))
 		default:
@@ -1191,7 +1280,7 @@ func c11Layouts(c *kit.Ctx, k *keyer, env *c11Env) {
 			var lv ssa.Value
 			switch r.Kind {
 			case "io.ReadFull":
-				if l, ok := c11MakeLen(rd.run, r.Buf); ok {
+				if l, ok := c11MakeLen(r.Call.Parent(), r.Buf); ok {
 					lv = l
 				}
 			case "readPiece":
@@ -1199,7 +1288,7 @@ func c11Layouts(c *kit.Ctx, k *keyer, env *c11Env) {
 			}
 			if lv == nil {
 				bad = append(bad, fmt.Sprintf("variable part read by %s with a size that cannot be related to the frame length", r.Kind))
-			} else if off, ok := rd.lenOff(lv); !ok {
+			} else if off, ok := rd.lenOff(lv, r.Ctx); !ok {
 				bad = append(bad, fmt.Sprintf("size %s of the variable part cannot be related to the frame length", kit.Canon(lv)))
 			} else if off != int64(1+hdr) {
 				bad = append(bad, fmt.Sprintf("variable part read as frame length - %d bytes, must be length - %d (1 id byte + %d header bytes)", off, 1+hdr, hdr))
@@ -1299,7 +1388,18 @@ func c11DeliversAlloc(a c11Arm, target *ssa.Alloc) bool {
 	if !ok {
 		return false
 	}
-	src := c11LoadOf(mi.X)
+	os := c11ValueOrigins(mi.X, 2)
+	for _, o := range os {
+		if !c11HoldsAlloc(c11LoadOf(o), target) {
+			return false
+		}
+	}
+	return len(os) > 0
+}
+
+// c11HoldsAlloc: src is target, or a local composite one of whose fields is
+// stored from a load of target.
+func c11HoldsAlloc(src, target *ssa.Alloc) bool {
 	if src == nil {
 		return false
 	}
@@ -1328,8 +1428,8 @@ func c11DeliversBuffer(c *kit.Ctx, rd *c11Reader, a c11Arm, r c11Consumer) strin
 			// UnmarshalBinary(em, buf) over the same buffer
 			um := c.FuncObj(c11PP, "(*ExtensionMessage).UnmarshalBinary")
 			ok := false
-			kit.Instrs(rd.run, func(ins ssa.Instruction) {
-				if call, isCall := ins.(*ssa.Call); isCall && kit.CalleeObj(&call.Call) == um &&
+			kit.Instrs(a.Payload.Parent(), func(ins ssa.Instruction) {
+				if call, isCall := ins.(*ssa.Call); isCall && call.Parent() == r.Call.Parent() && kit.CalleeObj(&call.Call) == um &&
 					argOf(&call.Call, 0) == ssa.Value(a.Payload) && argOf(&call.Call, 1) == r.Buf && kit.Dominates(r.Call, call) {
 					ok = true
 				}
@@ -1343,14 +1443,16 @@ func c11DeliversBuffer(c *kit.Ctx, rd *c11Reader, a c11Arm, r c11Consumer) strin
 		if !ok {
 			return "delivered value is not a message struct"
 		}
-		src := c11LoadOf(mi.X)
 		u, _ := r.Buf.(*ssa.UnOp)
-		if src == nil || u == nil {
-			return "delivered value cannot be related to the buffer read"
-		}
-		fa, _ := u.X.(*ssa.FieldAddr)
-		if fa == nil || fa.X != ssa.Value(src) {
-			return "the buffer read from the stream is not a field of the delivered message"
+		for _, o := range c11ValueOrigins(mi.X, 2) {
+			src := c11LoadOf(o)
+			if src == nil || u == nil {
+				return "delivered value cannot be related to the buffer read"
+			}
+			fa, _ := u.X.(*ssa.FieldAddr)
+			if fa == nil || fa.X != ssa.Value(src) {
+				return "the buffer read from the stream is not a field of the delivered message"
+			}
 		}
 		return ""
 	case "readPiece":
@@ -1358,24 +1460,26 @@ func c11DeliversBuffer(c *kit.Ctx, rd *c11Reader, a c11Arm, r c11Consumer) strin
 		if !ok {
 			return "delivered value is not a message struct"
 		}
-		src := c11LoadOf(mi.X)
-		if src == nil {
-			return "delivered piece is not a local composite"
-		}
-		found := false
-		for _, rr := range *src.Referrers() {
-			if fa, ok := rr.(*ssa.FieldAddr); ok {
-				for _, r2 := range *fa.Referrers() {
-					if st, ok := r2.(*ssa.Store); ok && st.Addr == ssa.Value(fa) {
-						if ex, ok := st.Val.(*ssa.Extract); ok && ex.Index == 0 && ex.Tuple == ssa.Value(r.Call) {
-							found = true
+		for _, o := range c11ValueOrigins(mi.X, 2) {
+			src := c11LoadOf(o)
+			if src == nil {
+				return "delivered piece is not a local composite"
+			}
+			found := false
+			for _, rr := range *src.Referrers() {
+				if fa, ok := rr.(*ssa.FieldAddr); ok {
+					for _, r2 := range *fa.Referrers() {
+						if st, ok := r2.(*ssa.Store); ok && st.Addr == ssa.Value(fa) {
+							if ex, ok := st.Val.(*ssa.Extract); ok && ex.Index == 0 && ex.Tuple == ssa.Value(r.Call) {
+								found = true
+							}
 						}
 					}
 				}
 			}
-		}
-		if !found {
-			return "the delivered piece does not carry the buffer returned by readPiece"
+			if !found {
+				return "the delivered piece does not carry the buffer returned by readPiece"
+			}
 		}
 		return ""
 	}
